@@ -288,7 +288,12 @@ func cmdCheck(argv []string) int {
 	var underContract []string
 	trustedContracts := []string{}
 	runOne := func(full string, ct *Contract, safety bool) {
-		fn := ld.Fns[full]
+		fnName := full
+		if i := strings.Index(fnName, "@"); i >= 0 && ct != nil && ct.Mode != "" {
+			fnName = fnName[:i]
+		}
+		fn := ld.Fns[fnName]
+		ex.Cfg.Interference = ct != nil && ct.Mode == "interference"
 		if fn == nil {
 			missing = append(missing, full)
 			return
@@ -297,7 +302,7 @@ func cmdCheck(argv []string) int {
 		ex.Cfg.SafetyProps = []string{id}
 		saveNC := ex.Cfg.NoContracts
 		// the function under verification is executed, not replaced by its own contract
-		nc := map[string]bool{full: true}
+		nc := map[string]bool{full: true, fnName: true}
 		for k, v := range saveNC {
 			nc[k] = v
 		}
@@ -324,6 +329,12 @@ func cmdCheck(argv []string) int {
 		}
 		underContract = append(underContract, strings.ReplaceAll(full, modulePrefix+"/", ""))
 		runOne(full, ct, false)
+	}
+	for _, lm := range ld.Specs.Lemmas {
+		if hasProp(lm.Props, id) {
+			ex.CheckLemma(lm)
+			underContract = append(underContract, "lemma "+lm.Label+" ("+lm.Line+")")
+		}
 	}
 	for _, s := range pc.Sweep {
 		full := qualifyAny(s)
